@@ -44,7 +44,7 @@ func checkC20(c *Ctx) {
 	r, p := c.R, c.P
 	r.Explanation = "Decides necessary conditions of C20 on context.Pool. Anchors are the exported API (Pool, NewPool, Add, Cancel, Size) and the standard library; everything else is resolved by role: the fields of Pool through their types (the sync.(RW)Mutex, the slice of channels = members, the channel Cancel closes, the embedded Context; also inside sub-structs of Pool, named or anonymous, by value or pointer), the watcher as the goroutine NewPool or a package callee starts, the pool's cancel function by dataflow from the context.WithCancel call whose context reaches Pool.Context. A field written only at construction with one single-origin value is identified with that value (a local captured by the watcher, a parameter); a boolean field only ever set to true after construction may stand in for members != nil / the closed Cancel channel. Every path rule runs on an inlined view of the entry points: a path-sensitive flow over sets of bit-vector states in which package callees, deferred calls, function literals, sync.Once.Do arguments and resolvable function values (closure parameters, method values incl. the mutex's, func-typed fields, elements of literal tables, methods of a single-implementation unexported interface) are entered as frames (depth <= 3), counted loops over a literal table of <= 3 elements are unrolled, the constant (bool or small enum, <= 3 values) a followed helper returned and boolean flags stay attached to the path, and evidence sits on CFG edges (select case fired / default taken, Err()/context.Cause vs nil, members vs nil, index vs len(members), a set-once flag), so if/switch/select forms, early returns, helpers, defer vs explicit calls are equivalent. " +
 		"(Y1) every access to the members slice on every path of the exported functions (entered without the lock) and of the watcher (entered with what NewPool holds at the go statement and at each of its returns) holds the Pool mutex, write mode for writes; accesses made by an entry point that is not handed a Pool, before it starts a goroutine, are private; " +
-		"(Y2) the watcher invokes the pool context's cancel only on paths that, since its last blocking wait, re-read len(members) and observed index >= len for an index that starts at 0 and advances by 1, or saw the Cancel channel closed / members nil / the set-once flag — so a member added while the pool is live is waited for; " +
+		"(Y2) the watcher invokes the pool context's cancel only on paths that, since its last blocking wait, re-read len(members) and observed index >= len for an index that starts at 0 and advances by 1, or saw the Cancel channel closed / members nil / the set-once flag — so a member added while the pool is live is waited for; the index advances only after a wait that includes a member channel, a non-blocking observation that a member is done, or Cancel's signal — no member is stepped over unwaited; " +
 		"(Y3) every blocking operation the watcher performs is a select with a case on an element of the members slice and a case on the Cancel channel; every exit of the watcher has invoked cancel; cancel is invoked nowhere outside the watcher and Cancel; " +
 		"(Y4) every store to the members slice reachable from Add happens with the write lock held and after a non-blocking test, made in the same lock hold, that found neither the pool context done nor the pool cancelled (one select, several selects, Err(), a set-once flag, a counted loop over a literal/variadic list of channels left by its index test); every return of Add has either seen the pool ended or stored the current members grown by the offered context's Done() — a member's own Done channel having fired is not such a signal; " +
 		"(Y5) every close of the Cancel channel reachable from Cancel happens under the write lock after observing, in the same hold, members != nil, the Cancel channel not yet closed or the set-once flag unset (or inside sync.Once.Do), and members is set to nil (and the flag, if one exists, set) before that hold ends; " +
@@ -59,7 +59,7 @@ func checkC20(c *Ctx) {
 		"identities are type-based: a field is (declaring struct type, field), not the object — sound here because every rule talks about the one Pool an entry point works on",
 		"library models: sync.(RW)Mutex Lock/Unlock/RLock/RUnlock, sync.Once.Do runs its argument at most once synchronously, slices.Clip/Grow/Clone keep elements and order, every other slices.* function may remove or move elements")
 	r.Rule("C20.Y1-guard", "the members slice of Pool is accessed only under the Pool mutex (W for writes); watcher entry lockset = what NewPool hands over", 3)
-	r.Rule("C20.Y2-reread", "the watcher cancels the pool context only after re-reading len(members) since its last wait and observing index >= len (index from 0 step 1)", 1)
+	r.Rule("C20.Y2-reread", "the watcher cancels the pool context only after re-reading len(members) since its last wait and observing index >= len (index from 0 step 1); the index advances only past a member that was waited for or seen done", 1)
 	r.Rule("C20.Y3-waits", "every wait in the watcher selects on a member channel and on the Cancel channel; every exit of the watcher has invoked the pool context's cancel", 2)
 	r.Rule("C20.Y4-add", "Add stores to members only under the write lock after finding, in the same hold, the pool neither done nor cancelled; every return saw the pool ended or appended the offered context", 2)
 	r.Rule("C20.Y6-initial", "NewPool considers every initial context: the loop is left only by its index test, and an iteration that does not append has seen that context done", 1)
@@ -1146,7 +1146,19 @@ func (a *c20) checkWatcherFlow() {
 		bExit  = 1 << iota // index >= len(members) observed on a fresh length since the last wait
 		bCanc              // cancel invoked
 		bFresh             // len(members) evaluated since the last wait
+		bSeen              // since the index last advanced, a member was waited for or seen done, or Cancel's signal was seen
 	)
+	idxPhis := map[*ssa.Phi]bool{} // the watcher's index variable(s), found through the exit test
+	pass2 := false
+	var advanceBad token.Pos
+	hasMemberCase := func(x *c20Ctx, sel *ssa.Select) bool {
+		for _, cs := range decodeSelect(sel).Cases {
+			if cs.Dir == types.RecvOnly && a.orig(x, cs.ChanV, a.isMemberElem) != c20No {
+				return true
+			}
+		}
+		return false
+	}
 	exitEdges, cancelExits := 0, 0
 	exitUnknown := map[string]bool{}
 	nearMiss := map[string]bool{}
@@ -1154,14 +1166,31 @@ func (a *c20) checkWatcherFlow() {
 	isCancelValue := func(v ssa.Value) bool { return carriers.Vals[v] }
 	f := &c20PathFlow{K: a.k}
 	f.Instr = func(x *c20Ctx, in ssa.Instruction, s c20State) c20State {
+		if phi, ok := in.(*ssa.Phi); ok && idxPhis[phi] {
+			s &^= bSeen // a new index: nothing seen about its member yet (the Edge hook has checked the advance)
+		} else if in == in.Block().Instrs[0] {
+			for phi := range idxPhis {
+				if phi.Block() == in.Block() {
+					s &^= bSeen
+				}
+			}
+		}
 		switch i := in.(type) {
 		case *ssa.Select:
 			if i.Blocking {
-				return s &^ (bExit | bFresh)
+				s &^= bExit | bFresh
+				if hasMemberCase(x, i) {
+					s |= bSeen // returns only when the member is done or Cancel's signal fired (Y3 checks the cases)
+				}
+				return s
 			}
 		case *ssa.UnOp:
 			if i.Op == token.ARROW {
-				return s &^ (bExit | bFresh)
+				s &^= bExit | bFresh
+				if a.orig(x, i.X, a.isMemberElem) != c20No {
+					s |= bSeen
+				}
+				return s
 			}
 		case *ssa.Send:
 			return s &^ (bExit | bFresh)
@@ -1190,7 +1219,10 @@ func (a *c20) checkWatcherFlow() {
 		if si, fired, _ := c20SelectEdge(cond, branch, to); si != nil {
 			if fired >= 0 && fired < len(si.Cases) && si.Cases[fired].Dir == types.RecvOnly && a.orig(x, si.Cases[fired].ChanV, a.isClosedLoad) == c20Yes {
 				cancelExits++
-				return s | bExit
+				return s | bExit | bSeen
+			}
+			if fired >= 0 && fired < len(si.Cases) && si.Cases[fired].Dir == types.RecvOnly && a.orig(x, si.Cases[fired].ChanV, a.isMemberElem) != c20No {
+				return s | bSeen // the member was seen done without blocking
 			}
 			return s
 		}
@@ -1260,12 +1292,14 @@ func (a *c20) checkWatcherFlow() {
 				nearMiss["the index compared with len(members) does not start at 0 and advance by exactly 1"] = true
 				return s
 			}
+			idxPhis[v] = true
 		case *ssa.BinOp:
 			// the incremented index (the value the loop variable has after i++)
 			okInc := false
 			for _, rr := range refs(v) {
 				if phi, isPhi := rr.(*ssa.Phi); isPhi && c20ProgressionFromZero(phi) {
 					okInc = true
+					idxPhis[phi] = true
 				}
 			}
 			if !okInc {
@@ -1279,7 +1313,30 @@ func (a *c20) checkWatcherFlow() {
 		exitEdges++
 		return s | bExit
 	}
+	// the index advances only past a member that was waited for or seen done
+	f.Edge = func(x *c20Ctx, from, to *ssa.BasicBlock, s c20State) {
+		if !pass2 {
+			return
+		}
+		for phi := range idxPhis {
+			if phi.Block() != to {
+				continue
+			}
+			for k, pr := range to.Preds {
+				if pr != from || k >= len(phi.Edges) {
+					continue
+				}
+				if _, inc := phi.Edges[k].(*ssa.BinOp); inc && s&bSeen == 0 && !advanceBad.IsValid() {
+					advanceBad = instrPos(from.Instrs[len(from.Instrs)-1])
+				}
+			}
+		}
+	}
 	res := f.Run(a.root, c20Set{0: {}})
+	if len(idxPhis) > 0 {
+		pass2 = true
+		res = f.Run(a.root, c20Set{0: {}}) // the index variable is known now
+	}
 
 	// calls of the cancel function outside the watcher and outside Cancel end the pool early
 	allowed := map[*ssa.Function]bool{}
@@ -1337,6 +1394,11 @@ func (a *c20) checkWatcherFlow() {
 	default:
 		a.decide(false, f, "C20.Y2-reread", construct, earlyPos, "",
 			"the pool context's cancel can be invoked by the watcher on a path that has not, since the last wait, re-read len(members) and found index >= len: the pool can end while a member (e.g. one added during the wait) is still live"+c20Why(nearMiss))
+	}
+
+	if len(idxPhis) > 0 {
+		a.decide(!advanceBad.IsValid(), f, "C20.Y2-reread", a.wname+" advance", advanceBad, "the watcher's index advances only after a wait on a member (or a non-blocking observation that it is done, or Cancel's signal)",
+			"the watcher can advance its index past a member without having waited for it or seen it done (a member that has not ended — e.g. one whose Done channel never fires — no longer keeps the pool live)")
 	}
 
 	// Y3 cancel half
